@@ -166,15 +166,18 @@ def frameEvents (k : Nat) : List Ev → Res (List Pdu) × List Ev
     | some (ps, r) => (.ok ps, r)
     | Option.none => (.error .badTrace, [])
 
-/-- The loop over `received.into_pdu_iter()` in `is_state`: decode, return `Ok(false)` at the first
-    state that differs. AS CODED: the working counter of the status datagram and the error bit of
-    the status are not looked at. -/
+/-- The loop over `received.into_pdu_iter()` in `is_state`: every status datagram must have been
+    answered by exactly one device (`pdu?.wkc(1)?`), then decode, return `Ok(false)` at the first
+    state that differs. AS CODED: the error bit of the status is not looked at. -/
 def checkStates (desired : Nat) : List Pdu → Res Bool
   | [] => .ok true
   | p :: ps =>
-    match unpackAlControl p.data with
+    match p.checkWkc 1 with
     | .error e => .error e
-    | .ok c => if c.state ≠ desired then .ok false else checkStates desired ps
+    | .ok p =>
+      match unpackAlControl p.data with
+      | .error e => .error e
+      | .ok c => if c.state ≠ desired then .ok false else checkStates desired ps
 
 /-- The frames of one complete status round: `push_state_checks` applied to a fresh frame again
     and again until it pushes nothing. Which members go into which frame depends on the frame size
